@@ -183,7 +183,8 @@ LEMMAS = {
     'C03': 'Also: one fetch/execute iteration of run_instructions from an arbitrary state (instruction index, variables, label table, shared state; callees as '
            'arbitrary results), run_instruction, run_on_error_instruction and the label-table loop of create_runtime as lemmas: programs and runs of any length by '
            'induction over the iterations (DESIGN.md 8.7).',
-    'C13': 'Also: the step lemma of run_instructions with the halt flag as a monotone function of time sampled by the loads (DESIGN.md 8.7).',
+    'C13': 'Also: the step lemma of run_instructions with the halt flag as a monotone function of time sampled by the loads (DESIGN.md 8.7); Env::new / '
+           'create_runtime keep the very halt flag the embedder passed (pointer identity) for every combination of writers.',
     'C06': 'Also: per-token lemmas of eval_condition_for_slice from an arbitrary evaluator state (START / AT / AND / OR / GROUP(k)) with the recursive group '
            'evaluation as an arbitrary result: statements of any length and nesting depth by induction (DESIGN.md 8.8).',
     'C11': 'Also: every operation kind once from an arbitrary variable map and an arbitrary scope stack of depth 0-2, stack compared entry by entry afterwards '
@@ -193,6 +194,10 @@ LEMMAS = {
            'obligations of the runner step lemma (DESIGN.md 8.7, 8.9).',
     'C14': 'Also: lemmas for the include argument loop (25 includer/path pairs, arbitrary collected list and parse_file result), directive dispatch, parse_file, '
            'parse_text_with_source_file and parse_lines: include trees of any shape by induction on depth (DESIGN.md 8.10).',
+    'C19': 'Also: the REAL bodies (script.ds as compiled into the MIR constants of the current tree) of unset, map_contains_key, array_is_empty, set_is_empty, '
+           'map_is_empty, set_from_array (thorough: concat) run through the real AliasCommand::run, eval_instructions, runner::run_instruction and the real '
+           'commands their bodies use, with symbolic arguments, caller variables (incl. near-miss prefixes) and collections.',
+    'C07': 'Also: utils::eval::parse (the re-serialiser behind eval, alias commands and command conditions) on an arbitrary argument vector: no panic site reachable.',
     'C16': 'Also: less_than / greater_than on plain integer literals (partial f64 model: integer literals exact, strings with a character no number literal has '
            'are errors; fractions, exponents, inf, nan outside).',
 }
